@@ -8,7 +8,7 @@ COMMON_TRUSTED = [
 ]
 
 PROPS = {}
-HOOK_COMMITS = ["f0964c3", "f0ee85c", "a38392f", "da161e5", "5e35e30", "48a35e4", "bcc879f", "e7e32d2", "7bc6616", "1d0b9a9", "1418b64"]
+HOOK_COMMITS = ["f0964c3", "f0ee85c", "a38392f", "da161e5", "5e35e30", "48a35e4", "bcc879f", "e7e32d2", "7bc6616", "1d0b9a9", "1418b64", "cbd428e"]
 NOT_BUILT_REASON = "no check registered yet: the Lean model/theorems and the correspondence harness for this property have not been built in this session (work in progress, see DESIGN.md §12); the technique applies"
 
 PROPS["C05"] = {
@@ -268,8 +268,30 @@ PROPS["C17"] = {
 }
 
 PROPS["C18"] = {
-    "modules": ["Gmsm.Props.C18", "Gmsm.Props.C02", "Gmsm.Props.C17", "Gmsm.Props.C16", "Gmsm.Props.C16Codec", "Gmsm.Props.C14Codec", "Gmsm.Props.C17Idem"],
+    "modules": ["Gmsm.Props.C18", "Gmsm.Props.C02", "Gmsm.Props.C17", "Gmsm.Props.C16", "Gmsm.Props.C16Codec", "Gmsm.Props.C14Codec", "Gmsm.Props.C17Idem", "Gmsm.Props.C15Codec"],
     "theorems": [
+        "Props.C15Codec.no_stray_bytes",
+        "Props.C15Codec.certCount_sound",
+        "Props.C15Codec.unmarshalCertificateStatus_ocsp_no_trailing",
+        "Props.C15Codec.unmarshalCertificate_total_bounds",
+        "Props.C15Codec.unmarshalServerKeyExchange_total_bounds",
+        "Props.C15Codec.unmarshalClientKeyExchange_total_bounds",
+        "Props.C15Codec.unmarshalFinished_total_bounds",
+        "Props.C15Codec.unmarshalCertificateVerify_total_bounds",
+        "Props.C15Codec.unmarshalNewSessionTicket_total_bounds",
+        "Props.C15Codec.unmarshalCertificateRequest_total_bounds",
+        "Props.C15Codec.unmarshalCertificateRequestGM_total_bounds",
+        "Props.C15Codec.unmarshalCertificateStatus_total_bounds",
+        "Props.C15Codec.unmarshalNextProto_total_bounds",
+        "Props.C15Codec.unmarshalClientHello_total_bounds",
+        "Props.C15Codec.unmarshalServerHello_total_bounds",
+        "Props.C15Codec.unmarshalCertificate_no_trailing",
+        "Props.C15Codec.unmarshalClientKeyExchange_no_trailing",
+        "Props.C15Codec.unmarshalCertificateVerify_no_trailing",
+        "Props.C15Codec.unmarshalNewSessionTicket_no_trailing",
+        "Props.C15Codec.unmarshalCertificateRequest_no_trailing",
+        "Props.C15Codec.unmarshalCertificateRequestGM_no_trailing",
+        "Props.C15Codec.unmarshalNextProto_no_trailing",
         "Props.C18.readObject_progress", "Props.C18.readItems_progress", "Props.C18.fuel_sufficient",
         "Props.C18.fuel_sufficient_items", "Props.C18.ber2der_total", "Props.C18.readObject_fuel_mono",
         "Props.C18.readItems_fuel_mono", "Props.C18.fuel_irrelevant", "Props.C18.ber2der_fuel_irrelevant",
@@ -280,7 +302,7 @@ PROPS["C18"] = {
     ],
     "gen_items": [],
     "level": "proof",
-    "claim": "Where a Lean model of a decoder exists, totality and resource bounds are theorems for every byte string: the BER transcoder model (tied to x509/ber.go by exact-output correspondence in C17 and here) is total by construction, every object it reads consumes at least two bytes and never claims bytes beyond the input (readObject_progress / readItems_progress), and the recursion is bounded by the remaining input: with fuel 2*(len-off)+1 the model never runs out (fuel_sufficient, ber2der_total) and the result does not depend on the fuel (fuel_irrelevant) — i.e. the stack depth and loop count of the real recursive descent are at most linear in the input; the repaired code refuses nesting deeper than 128 (depth_bounded, ber2der_depth; nested129_rejected / nested128_accepted show the bound is tight) and ber2der_cost bounds the bytes EncodeTo buffers by 129 x the output size. The SM2 ciphertext parser (C02 decrypt_rejects_short: short input is an error, never an out-of-range slice), PKCS#7 unpad (C17 unpad_sound) and the ticket gate (C16) are total functions with the error branches proved. For all 62 decoder entry points of the library (sm2 Decrypt in both orderings / DecryptAsn1 / CipherUnmarshal / CipherMarshal / Verify / Decompress; x509 certificates, requests, CRLs, PKCS#7 + Verify/Decrypt/DecryptSM2 with every key-type combination incl. nil and typed nil, BER, PKCS#8 with and without password, PEM and hex keys; pkcs12 Decode/DecodeAll/ToPEM incl. correctly MAC-ed mutated contents; sm4 key PEM; all 16 gmtls handshake message parsers, the session-state parser and decryptTicket incl. correctly sealed mutated states) the check runs the quantifier's derivation on a corpus of valid encodings made by the library: every truncation, single-byte substitutions from {00,01,7f,80,ff,b^1,b^80}, every TLV length rewritten to {0,len-1,len+1,80,84ffffffff}, universal tag swaps, consistent re-sizing of elements, BER nesting 10..10^4 in definite and indefinite form, empty input and random strings (about 26000 ops quick, 296000 thorough); each call runs under recover with wall-time (max(2 s, 100 us/byte)) and allocation (64 MiB + 1024/byte) limits, decoded values are then used (verification, decryption, chain building) so that lazily crashing values count. Added: byte-level models with totality and bounds theorems now also exist for the session-state parser behind decryptTicket (C16Codec.unmarshal_total: never claims bytes beyond the input), point decompression (C14Codec.decompress_eq_none_iff: the exact set of rejected inputs) and the ASN.1 ciphertext converter (cipherMarshal_short: short input is an error), each tied to the real code by exact-output ops.",
+    "claim": "Where a Lean model of a decoder exists, totality and resource bounds are theorems for every byte string: the BER transcoder model (tied to x509/ber.go by exact-output correspondence in C17 and here) is total by construction, every object it reads consumes at least two bytes and never claims bytes beyond the input (readObject_progress / readItems_progress), and the recursion is bounded by the remaining input: with fuel 2*(len-off)+1 the model never runs out (fuel_sufficient, ber2der_total) and the result does not depend on the fuel (fuel_irrelevant) — i.e. the stack depth and loop count of the real recursive descent are at most linear in the input; the repaired code refuses nesting deeper than 128 (depth_bounded, ber2der_depth; nested129_rejected / nested128_accepted show the bound is tight) and ber2der_cost bounds the bytes EncodeTo buffers by 129 x the output size. The SM2 ciphertext parser (C02 decrypt_rejects_short: short input is an error, never an out-of-range slice), PKCS#7 unpad (C17 unpad_sound) and the ticket gate (C16) are total functions with the error branches proved. For all 62 decoder entry points of the library (sm2 Decrypt in both orderings / DecryptAsn1 / CipherUnmarshal / CipherMarshal / Verify / Decompress; x509 certificates, requests, CRLs, PKCS#7 + Verify/Decrypt/DecryptSM2 with every key-type combination incl. nil and typed nil, BER, PKCS#8 with and without password, PEM and hex keys; pkcs12 Decode/DecodeAll/ToPEM incl. correctly MAC-ed mutated contents; sm4 key PEM; all 16 gmtls handshake message parsers, the session-state parser and decryptTicket incl. correctly sealed mutated states) the check runs the quantifier's derivation on a corpus of valid encodings made by the library: every truncation, single-byte substitutions from {00,01,7f,80,ff,b^1,b^80}, every TLV length rewritten to {0,len-1,len+1,80,84ffffffff}, universal tag swaps, consistent re-sizing of elements, BER nesting 10..10^4 in definite and indefinite form, empty input and random strings (about 26000 ops quick, 296000 thorough); each call runs under recover with wall-time (max(2 s, 100 us/byte)) and allocation (64 MiB + 1024/byte) limits, decoded values are then used (verification, decryption, chain building) so that lazily crashing values count. Added: byte-level models with totality and bounds theorems now also exist for the session-state parser behind decryptTicket (C16Codec.unmarshal_total: never claims bytes beyond the input), point decompression (C14Codec.decompress_eq_none_iff: the exact set of rejected inputs) and the ASN.1 ciphertext converter (cipherMarshal_short: short input is an error), each tied to the real code by exact-output ops. Handshake message parsers (Model.TLSMessages, Props.C15Codec): for all 12 parsers with variable-length content, everything returned lies inside the input (unmarshalX_total_bounds, for every byte string), the certificate-count subtraction never wraps (certCount_sound), stray bytes after the last certificate entry are rejected even with consistent outer lengths (no_stray_bytes) and the strict parsers reject every accepted message followed by anything (unmarshalX_no_trailing); tied by the hsmsg/hsmsgm ops (panic vs reject vs fields, line for line).",
     "note": "Partial: panic-freedom of the Go decoders themselves is decided by the mutation sweep, not by generated verification conditions (the VC generator of the design was not built); theorems cover the modelled decoders only (BER, SM2 ciphertext split, unpad, ticket gate). Password-stretching iteration counts carried by PKCS#8 / PKCS#12 inputs are exempt from the time limit, as the property says.",
     "trusted_base": ["Model.BER tied by the ber2der op (C17 generator plus the C18 nesting inputs)", "harness/c18.go limits and decoder table; hooks gmtls/pkcs12 export_verif_c18.go (parsers, ticket and PFX re-sealing)", "Go runtime recover() semantics; runtime.MemStats for the allocation measure"],
     "assumptions": [],
@@ -324,8 +346,44 @@ PROPS["C06"] = {
 }
 
 PROPS["C15"] = {
-    "modules": ["Gmsm.Props.C15"],
+    "modules": ["Gmsm.Props.C15", "Gmsm.Props.C15Codec"],
     "theorems": [
+        "Props.C15Codec.unmarshalServerKeyExchange_iff",
+        "Props.C15Codec.unmarshalServerKeyExchange_marshalServerKeyExchange",
+        "Props.C15Codec.marshalServerKeyExchange_unmarshalServerKeyExchange",
+        "Props.C15Codec.unmarshalFinished_iff",
+        "Props.C15Codec.unmarshalFinished_marshalFinished",
+        "Props.C15Codec.marshalFinished_unmarshalFinished",
+        "Props.C15Codec.unmarshalFinished_any_tail",
+        "Props.C15Codec.unmarshalClientKeyExchange_iff",
+        "Props.C15Codec.unmarshalClientKeyExchange_marshalClientKeyExchange",
+        "Props.C15Codec.marshalClientKeyExchange_unmarshalClientKeyExchange",
+        "Props.C15Codec.unmarshalServerHelloDone_iff",
+        "Props.C15Codec.unmarshalServerHelloDone_marshalServerHelloDone",
+        "Props.C15Codec.unmarshalHelloRequest_iff",
+        "Props.C15Codec.unmarshalHelloRequest_marshalHelloRequest",
+        "Props.C15Codec.unmarshalCertificateVerify_iff",
+        "Props.C15Codec.unmarshalCertificateVerify_marshalCertificateVerify",
+        "Props.C15Codec.marshalCertificateVerify_unmarshalCertificateVerify",
+        "Props.C15Codec.unmarshalNewSessionTicket_iff",
+        "Props.C15Codec.unmarshalNewSessionTicket_marshalNewSessionTicket",
+        "Props.C15Codec.unmarshalCertificateStatus_iff",
+        "Props.C15Codec.unmarshalCertificateStatus_marshalCertificateStatus",
+        "Props.C15Codec.unmarshalCertificateStatus_other_trailing",
+        "Props.C15Codec.unmarshalNextProto_iff",
+        "Props.C15Codec.unmarshalNextProto_marshalNextProto",
+        "Props.C15Codec.unmarshalCertificate_iff",
+        "Props.C15Codec.unmarshalCertificate_marshalCertificate",
+        "Props.C15Codec.marshalCertificate_unmarshalCertificate",
+        "Props.C15Codec.unmarshalCertificate_header_ignored",
+        "Props.C15Codec.unmarshalCertificateRequest_iff",
+        "Props.C15Codec.unmarshalCertificateRequest_marshalCertificateRequest",
+        "Props.C15Codec.marshalCertificateRequest_unmarshalCertificateRequest",
+        "Props.C15Codec.unmarshalCertificateRequestGM_eq",
+        "Props.C15Codec.unmarshalCertificateRequestGM_iff",
+        "Props.C15Codec.unmarshalCertificateRequestGM_marshalCertificateRequestGM",
+        "Props.C15Codec.unmarshalServerHello_marshalServerHello",
+        "Props.C15Codec.unmarshalClientHello_marshalClientHello",
         "Props.C15.done_only_expected", "Props.C15.run_done_iff", "Props.C15.run_done_expected",
         "Props.C15.expected_gmServer_full", "Props.C15.expected_gmServer_clientCert", "Props.C15.expected_gmServer_resume",
         "Props.C15.expected_gmClient_full", "Props.C15.expected_gmClient_ticket", "Props.C15.expected_gmClient_resume",
@@ -342,7 +400,7 @@ PROPS["C15"] = {
     ],
     "gen_items": [],
     "level": "proof",
-    "claim": "Model.Handshake is the message-acceptance automaton of the gmtls endpoints as the code is: the record-layer rules of readRecord/readHandshake (record type against phase, ChangeCipherSpec only when asked for and not while part of a message is buffered, oversized records and messages, at most 5 consecutive warning alerts, close_notify/fatal alert/EOF, the GMSSL client's missing haveVers) and the per-state type assertions of the GMSSL and TLS server and client (full, client-certificate, ticket and resumption variants, NPN, the TLS client's optional CertificateStatus/ServerKeyExchange/CertificateRequest), over an alphabet of 33 events. Proved for every configuration and EVERY finite event sequence: if the handshake completes with the last event, the sequence with tolerated events erased is one of the flights expected c, which are written out per role (done_only_expected, run_done_iff, expected_*); once the stream has ended no state keeps waiting (no_wait_after_eof, eof_is_error); in every state every event other than the at most two (TLS client: four) listed types and the tolerated ones is an error, with its alert (unexpected_is_error, unexpected_cases, unexpected_cases_ccs, expected_is_taken); every step errors, completes, moves to a later phase or is a tolerated event, the sixth consecutive warning alert is fatal, and a still-running endpoint has read at most 6*8+5 events other than empty records and record-boundary artefacts (progress, six_warnings_fatal, bounded_stall, stall_bound). Version dispatch for all client_version values at once by omega: below 0x0101 and in (0x0101,0x0300) every mode rejects; the auto-switch server enters GMSSL code iff v=0x0101, TLS code iff 0x0300<=v<=0x0303 at that version, and rejects everything else including all v>0x0303; TLS-only and GMSSL-only servers cap at 0x0303; no version without a PRF is ever negotiated (dispatch_*, dispatch_version_has_prf, auto_gm_iff); a hello with unsupported version, compression or suites is refused before any ServerHello and a ServerHello names an offered, servable suite (hello_refused, hello_suite_offered). Correspondence on every run: a man in the middle between the real endpoint under test and a genuine gmtls peer applies edit scripts to the stream towards the endpoint (drop, dup, swap, retype, insert any handshake type or record-level event incl. CCS, application data, alerts, empty/oversized/unknown/wrong-version records, truncation, length-field perturbation, split/join/trailing bytes, EOF before every item, EOF of the endpoint's own stream after every record), for GMSSL/TLS/auto-switch servers and GMSSL/TLS clients in full, client-cert, ticket and resumed handshakes, plus ClientHello version sweeps 0x0000..0x0400, suite lists of known and unknown ids and compression rewrites in all three server modes; Handshake's result, panics (both ends), waiting after end of stream (decided by exact deadlock detection, not time) and the alert written are compared line by line with the model (quick 1510 ops, thorough about 31 800: all single edits at every position, all pairs of order-level edits for the GMSSL roles, seeded multi-edit scripts). Added: the client's check of a ServerHello (version, suite in offered and known, null compression) is characterised outright (client_accepts_hello_iff, client_never_accepts_unoffered) and compared with the real client by the shmod op (man-in-the-middle rewrites of the genuine ServerHello).",
+    "claim": "Model.Handshake is the message-acceptance automaton of the gmtls endpoints as the code is: the record-layer rules of readRecord/readHandshake (record type against phase, ChangeCipherSpec only when asked for and not while part of a message is buffered, oversized records and messages, at most 5 consecutive warning alerts, close_notify/fatal alert/EOF, the GMSSL client's missing haveVers) and the per-state type assertions of the GMSSL and TLS server and client (full, client-certificate, ticket and resumption variants, NPN, the TLS client's optional CertificateStatus/ServerKeyExchange/CertificateRequest), over an alphabet of 33 events. Proved for every configuration and EVERY finite event sequence: if the handshake completes with the last event, the sequence with tolerated events erased is one of the flights expected c, which are written out per role (done_only_expected, run_done_iff, expected_*); once the stream has ended no state keeps waiting (no_wait_after_eof, eof_is_error); in every state every event other than the at most two (TLS client: four) listed types and the tolerated ones is an error, with its alert (unexpected_is_error, unexpected_cases, unexpected_cases_ccs, expected_is_taken); every step errors, completes, moves to a later phase or is a tolerated event, the sixth consecutive warning alert is fatal, and a still-running endpoint has read at most 6*8+5 events other than empty records and record-boundary artefacts (progress, six_warnings_fatal, bounded_stall, stall_bound). Version dispatch for all client_version values at once by omega: below 0x0101 and in (0x0101,0x0300) every mode rejects; the auto-switch server enters GMSSL code iff v=0x0101, TLS code iff 0x0300<=v<=0x0303 at that version, and rejects everything else including all v>0x0303; TLS-only and GMSSL-only servers cap at 0x0303; no version without a PRF is ever negotiated (dispatch_*, dispatch_version_has_prf, auto_gm_iff); a hello with unsupported version, compression or suites is refused before any ServerHello and a ServerHello names an offered, servable suite (hello_refused, hello_suite_offered). Correspondence on every run: a man in the middle between the real endpoint under test and a genuine gmtls peer applies edit scripts to the stream towards the endpoint (drop, dup, swap, retype, insert any handshake type or record-level event incl. CCS, application data, alerts, empty/oversized/unknown/wrong-version records, truncation, length-field perturbation, split/join/trailing bytes, EOF before every item, EOF of the endpoint's own stream after every record), for GMSSL/TLS/auto-switch servers and GMSSL/TLS clients in full, client-cert, ticket and resumed handshakes, plus ClientHello version sweeps 0x0000..0x0400, suite lists of known and unknown ids and compression rewrites in all three server modes; Handshake's result, panics (both ends), waiting after end of stream (decided by exact deadlock detection, not time) and the alert written are compared line by line with the model (quick 1510 ops, thorough about 31 800: all single edits at every position, all pairs of order-level edits for the GMSSL roles, seeded multi-edit scripts). Added: the client's check of a ServerHello (version, suite in offered and known, null compression) is characterised outright (client_accepts_hello_iff, client_never_accepts_unoffered) and compared with the real client by the shmod op (man-in-the-middle rewrites of the genuine ServerHello). Byte level (Model.TLSMessages, Props.C15Codec, 157 theorems): unmarshal/marshal of all 16 handshake message kinds modelled step for step (both hellos with every recognised extension, both certificate-request layouts, the uint32 wrap in the certificate loop); per message an exact acceptance characterisation (unmarshalX_iff), the round trip unmarshal(marshal m) = m for well-formed m and canonicity where the parser is strict; where it is not strict the theorem says so (unmarshalFinished_any_tail, unmarshalCertificate_header_ignored, unmarshalCertificateStatus_other_trailing). Tied by ops hsmsg (every parsed field and marshal of the re-built struct compared) and hsmsgm (marshal on arbitrary, also out-of-range, fields): every truncation of short samples with and without fixed header length, boundary cuts, consistent resize mutations.",
     "note": "Partial: message contents are not modelled; a message of the expected type is taken to carry what the genuine peer wrote. The two content outcomes the state machine depends on are explicit events: malformed (body fails to unmarshal) and finishedBad (verify_data mismatch). The driver carries the abstract rule 'an edit that changes the bytes E hashes makes the transcripts differ, so the peer rejects E's answer / E's Finished check fails'; for trunc/len edits only done/error is compared (whether the parser notices is C18's subject), for all other edits the alert code is compared too (printed 'enc' once the endpoint writes under its new keys). A protected record cannot be forged by the man in the middle, so events after ChangeCipherSpec are limited to the genuine Finished and records that fail decryption. NPN and OCSP-status branches of the automaton are proved but not exercised (two gmtls peers never negotiate them). Certificate policy outcomes (empty certificate under Require*) are content-level and not in the automaton. The code does not bound empty handshake records (empty_records_unbounded) and a TLS-only/GMSSL-only server lets 0x0101 resp. >=0x0300 through mutualVersion; both are modelled as they are and listed in harness/c15_findings.txt.",
     "trusted_base": ["Model.Handshake tied by the hsseq/hsflight/hsout/chmod ops (exact line equality incl. alert code) in harness/c15.go; the script->event translation Driver/Handshake.lean (streamOf, cipherPass, taints)", "harness deadlock detector (qWorld: all readers blocked on empty pipes) and the intrinsic oracles panic / hang / completed-on-misbehaviour", "harness/tls.go PKI and config builders; the genuine gmtls peer", "Go runtime recover()"],
     "assumptions": ["messages of the expected type carry what an honest peer sends (contents outside the model)", "transcripts that differ never produce a matching Finished (collision resistance of SM3/SHA-256 and the PRF) — used only in the driver's translation, stated there", "default Config version limits (MinVersion/MaxVersion unset)"],
